@@ -472,6 +472,8 @@ class PairedAdapterCutter(PairedEndModifier):
                 assert len(trimmed_read.sequence) == len(read)
             elif self.action == "retain":
                 trimmed_read = AdapterCutter.trim_but_retain_adapter(read, [match])
+            elif self.action == "crop":
+                trimmed_read = AdapterCutter.cropped_read(read, [match])
             elif self.action is None:  # --no-trim
                 trimmed_read = read[:]
             result.append(trimmed_read)
